@@ -244,6 +244,25 @@ def finalize(ctx: Ctx, tier: str, seed: int, t0: float, level_text: str,
                                   'edges': sum(sum(len(v) for v in g.succ.values()) for g in _cfg_cache.values())}
     except Exception:  # pragma: no cover
         pass
+    # what the loader rewrote before anything was analysed (DESIGN 9.10 ff.): the counts of this run, per module
+    NORMALISATIONS = ('matches_desugared', 'casts_dropped', 'calls_to_comps', 'empty_subclasses', 'identity_conversions', 'chains_split',
+                      'assertion_raises', 'trivial_methods', 'constant_choices', 'two_valued_props', 'seams_inlined', 'two_valued',
+                      'nt_rewrites', 'tuple_splits', 'deobjectified', 'loops_to_comps', 'loops_to_map', 'renamed_defs', 'nested_helpers',
+                      'projected', 'annotations_dropped', 'drains', 'exception_tuples', 'folded_defaults', 'module_partials',
+                      'constants_inlined', 'forward_substituted', 'alias_rewrites')
+    norm_counts = {}
+    for rel_, u_ in ctx.program.units.items():
+        row = {}
+        for k_ in NORMALISATIONS:
+            v_ = getattr(u_, k_, 0)
+            v_ = len(v_) if isinstance(v_, (list, tuple, set, dict)) else v_
+            if isinstance(v_, bool):
+                v_ = int(v_)
+            if isinstance(v_, int) and v_:
+                row[k_] = v_
+        if row:
+            norm_counts[rel_] = row
+    coverage['load_time_normalisations'] = norm_counts
     coverage.update(ctx.extra)
     ev = {
         'property_id': prop, 'tier': tier, 'seed': seed, 'level': 'other',
